@@ -620,7 +620,7 @@ func (h *history) genTx(forCheck bool) genTx {
 	seqDelta := 0
 	switch r.intn(40) {
 	case 0:
-		keys[r.intn(len(keys))] = c.accts[(signerIdx[0]+1)%len(c.accts)]
+		keys[r.intn(len(keys))] = c.govActor
 		sigOK = false
 	case 1:
 		seqDelta = 1
